@@ -344,7 +344,8 @@ class Norm:
         if name == "np.flatnonzero" and len(e.args) == 1:
             return Poly.atom(("rows", self.bool_key(e.args[0])))
         if name == "np.column_stack" and len(e.args) == 1:
-            return self.transpose(Poly.atom(("call", "np.vstack", (self.key(e.args[0]),), ())))
+            vs = ast.Call(func=ast.Attribute(value=ast.Name(id="np", ctx=ast.Load()), attr="vstack", ctx=ast.Load()), args=[e.args[0]], keywords=[])
+            return self.transpose(self.n(vs))
         if name in ("np.all", "np.any", "all", "any") and e.args:
             return Poly.atom(("bexpr", self.b(e)))
         if isinstance(f, ast.Attribute) and f.attr in ("all", "any") and not (isinstance(f.value, ast.Name) and f.value.id in ("np", "numpy")):
